@@ -83,12 +83,14 @@ def crate_fields(fields, crate="shred"):
     return [(a, f) for a, f in fields if a.startswith(crate + "::")]
 
 
-def leaves(ev, t):
-    """The collections an iterator term ranges over: `a.iter().chain(b.iter())` has the leaves a and b."""
-    t = strip(ev, t)
+def leaves(ev, t, order_free=False):
+    """The collections an iterator term ranges over: `a.iter().chain(b.iter())` has the leaves a and b.
+    order_free: the consumer does not care in which order the elements come (an intersection test), so `rev()` is a view too."""
+    extra = ("rev",) if order_free else ()
+    t = strip(ev, t, extra=extra)
     c = callee_of(ev, t)
     if c is not None and not c.local and c.name in ("chain", "zip") and len(t[2]) == 2:
-        return leaves(ev, t[2][0]) + leaves(ev, t[2][1])
+        return leaves(ev, t[2][0], order_free) + leaves(ev, t[2][1], order_free)
     return [t]
 
 
